@@ -279,6 +279,7 @@ UNITS += C14_twolevel.UNITS
 from contracts import C14_heap
 UNITS += C14_heap.UNITS
 UNITS += [u for u in C14_gdeque.make_links() if u.name == 'GD_emplace_split_links']
+UNITS += C14_gdeque.make_iter()
 from contracts import C14_pra
 UNITS += C14_pra.UNITS
 
